@@ -32,14 +32,14 @@ RULE = ('random axially symmetric lenses from vkit.lens.gen_axial (2-8 interface
         'samples; each case exercises ONE analysis family (spot, rms-vs-field, ray fan, encircled energy, distortion, '
         'grid distortion, field curvature, pupil aberration, operands) with a random distribution name / ray count / '
         'number of points and, where the class takes them, explicit field and wavelength lists that differ from the '
-        "lens's own (same, subset, superset, permuted, without the primary, single primary / non-primary); "
+        "lens's own (same, subset, superset, permuted, without the primary, single primary / non-primary, a value listed twice); "
         'the unseeded "random" distribution cannot be re-traced, its spots are checked for count and the derived '
         'quantities against the stored spot (a seeded RandomDistribution object is re-traced bitwise); pupil aberration '
         'is exercised without vignetting factors (their effect on the paraxial reference is not documented); the '
         'Coddington oracle covers planes, spheres, conics and even aspheres, refracting and reflecting; '
         'a case is non-trivial when the lens has >= 2 powered surfaces and the analysis returned >= 5 finite samples; '
         'distinct = distinct case hash')
-TIERS = {'quick': dict(shards=12, cases=40), 'thorough': dict(shards=16, cases=1400)}
+TIERS = {'quick': dict(shards=12, cases=40), 'thorough': dict(shards=16, cases=1100)}
 MIN_NONTRIVIAL = {'quick': 250, 'thorough': 5000}
 MIN_EVALS = {'spot-data': 60, 'spot-centroid': 30, 'spot-rms-radius': 30, 'spot-geometric-radius': 30,
              'rms-spot-vs-field': 25, 'ray-fan': 60, 'ray-fan-axis': 25,
@@ -54,8 +54,14 @@ ASSUMPTIONS = ['the public tracer (Optic.trace / trace_generic) is the ray sourc
                "centre of the PRIMARY-wavelength entrance pupil as the library's chief ray is",
                'field curvature: Coddington equations written from Kingslake/Welford with own surface normals and own '
                'tangential/sagittal curvatures from the sag derivatives; compared in units of f + shift^2/f because the '
-               "library's parabasal-pair intersection has an absolute error in vergence (measured worst 4e-9 of that unit "
-               'over 1000 lenses, tolerance 2e-6)',
+               "library's parabasal-pair intersection (delta = 1e-5) has an absolute error in vergence; measured worst "
+               '2.3e-7 of that unit over 8500 curves x 5-40 field points (typical 4e-8 per 250 lenses), tolerance 5e-6 '
+               '(> 20x margin; a missing direction-cosine projection or a swapped T/S pair is >= 1e-4)',
+               'ray fans: the reference chief ray is traced on its own; tolerance 1e-10 for closed-form lenses, 1e-6 when '
+               'the lens has an iterated (even-asphere) surface whose batch-wide Newton stopping rule makes a ray traced '
+               'alone differ from the same ray in a fan by ~1e-8 on the image (C13 owns batch independence)',
+               'distortion / grid distortion: paraxial heights from ABCD agree with the library\'s H = 1e-10 real ray to '
+               '4e-11 % (tolerance 1e-7 %) and 4e-13 relative (tolerance 1e-9)',
                'encircled-energy curves are observed through view() under the Agg backend (the data is not stored)']
 ANCHORS = [('optiland.analysis.spot_diagram', 'SpotDiagram._generate_field_data'),
            ('optiland.analysis.spot_diagram', 'SpotDiagram.centroid'),
@@ -796,7 +802,7 @@ def fam_fieldcurv(ctx, rec, c):
         for name, got, want in (('tangential', T, dt), ('sagittal', S, ds)):
             # the library intersects two parabasal rays: its error is absolute in vergence, i.e. ~ shift^2 / f
             scale = f + np.where(np.isfinite(want), want, 0.0) ** 2 / f
-            rec.close(f'field-curvature-{name}', got, want, 2e-6, scale=scale,
+            rec.close(f'field-curvature-{name}', got, want, 5e-6, scale=scale,
                       msg=f'{name} focus shift at wavelength {w} differs from Coddington\'s equations along the chief ray',
                       detail=dict(f=f, Hy=Hy))
         nfin += int(np.sum(np.isfinite(T)) + np.sum(np.isfinite(S)))
